@@ -3,6 +3,7 @@ package server
 import (
 	"bytes"
 	"context"
+	"encoding/binary"
 	"errors"
 	"github.com/aldas/go-modbus-client/packet"
 )
@@ -54,7 +55,12 @@ func (m *ModbusTCPAssembler) handle(ctx context.Context, data []byte) []byte {
 		if errors.As(err, &target) {
 			return target.Bytes()
 		}
-		return packet.NewErrorParseTCP(packet.ErrUnknown, err.Error()).Bytes()
+		// error response must be addressed to the same transaction, unit and function as the request was
+		tmpErr := packet.NewErrorParseTCP(packet.ErrUnknown, err.Error())
+		tmpErr.Packet.TransactionID = binary.BigEndian.Uint16(data[0:2])
+		tmpErr.Packet.UnitID = data[6]
+		tmpErr.Packet.Function = data[7]
+		return tmpErr.Bytes()
 	}
 
 	return resp.Bytes()
